@@ -54,8 +54,8 @@ Definition check_list (o : list string * list (string * string) * list (string *
   let model := map (fun e => (e_method e, e_path e)) (new_router services) in
   subset routes model && subset model routes && Nat.eqb (List.length routes) (List.length model) &&
   forallb (fun p => let '(m, pa, k, st) := p in (st =? 401)%Z && existsb (pair_eqb (m, pa)) routes) probes &&
-  (* every route was probed in each of the 3 modes with every one of the 7 bad-token kinds *)
-  Nat.eqb (List.length probes) (21 * List.length routes).
+  (* every route was probed in each of the 3 modes with every one of the 11 bad-token kinds *)
+  Nat.eqb (List.length probes) (33 * List.length routes).
 
 Definition violations (obs : list (list string * list (string * string) * list (string * string * string * Z)))
   : list (list string) := map (fun o => fst (fst o)) (filter (fun o => negb (check_list o)) obs).
